@@ -1,5 +1,6 @@
 import RsslVerif.Lemmas.Layout
 import RsslVerif.Lemmas.LayoutCollect
+import RsslVerif.Lemmas.LayoutFull
 import RsslVerif.Gen.LayoutSites
 /-!
 # C19 — layout-consistency validation is sound
@@ -255,6 +256,123 @@ example :
   decide
 
 end collection
+
+/-! ## The full type universe: `bool`, matrices (all scalars, 1–4 rows and columns, `row_major` /
+    `column_major`), next to everything of the grid, nested to any depth -/
+section full
+open RsslVerif.Spec.LayoutFull RsslVerif.Lemmas.LayoutFull
+
+/-- **Soundness over the full universe.**  If `check_layout` accepts, every listed type for which both rule
+    sets define a layout (`xwf`: also `bool`, `boolN`, `half`/`float` matrices) has the same total size and the
+    same byte offset of every field, recursively, under the full reference calculators. -/
+theorem check_sound_full (ts : List XTy) (h : checkAll (ts.map erase) = .ok) (t : XTy) (ht : t ∈ ts)
+    (hw : xwf t = true) :
+    ∃ rh rm, xhlslSB t = some rh ∧ xmetal t = some rm ∧ rh.size = rm.size ∧ rh.fields = rm.fields := by
+  have hc := checkFrom_ok (ts.map erase) 0 h (erase t) (List.mem_map_of_mem ht)
+  cases hp : plain t with
+  | false => exact absurd hc (checkOne_opaque t hp _)
+  | true =>
+    obtain ⟨w, hs, hf, _⟩ := coincide t hp hw
+    have ha : Agree (erase t) := (checkOne_spec w hc).1 rfl
+    refine ⟨⟨xsize .hlsl t, xalign .hlsl t, xfieldsAt .hlsl t 0⟩, ⟨xsize .metal t, xalign .metal t, xfieldsAt .metal t 0⟩,
+      by simp only [xhlslSB, xref, hw, if_true], by simp only [xmetal, xref, hw, if_true], ?_, ?_⟩
+    · show xsize .hlsl t = xsize .metal t
+      rw [(hs .hlsl).1, (hs .metal).1]; exact ha.1
+    · show xfieldsAt .hlsl t 0 = xfieldsAt .metal t 0
+      rw [hf .hlsl 0, hf .metal 0]; exact agree_fields _ ha.2 0
+
+/-- **Reported sizes over the full universe.** -/
+theorem reported_sizes_true_full (ts : List XTy) (i : Nat) (lh lm : Layout)
+    (h : checkAll (ts.map erase) = .mismatch i lh lm) :
+    ∃ t, ts[i]? = some t ∧ (xwf t = true →
+      xhlslSB t = some ⟨lh.size, lh.align, xfieldsAt .hlsl t 0⟩ ∧
+      xmetal t = some ⟨lm.size, lm.align, xfieldsAt .metal t 0⟩) := by
+  obtain ⟨u, hu, _, hc⟩ := checkFrom_mismatch (ts.map erase) 0 i lh lm h
+  have hu' : (ts.map erase)[i]? = some u := by simpa using hu
+  rw [List.getElem?_map] at hu'
+  cases hq : ts[i]? with
+  | none => rw [hq] at hu'; cases hu'
+  | some t =>
+    rw [hq] at hu'
+    simp only [Option.map_some, Option.some.injEq] at hu'
+    subst hu'
+    refine ⟨t, rfl, fun hw => ?_⟩
+    cases hp : plain t with
+    | false => exact absurd hc (checkOne_opaque t hp _)
+    | true =>
+      obtain ⟨w, hs, hf, _⟩ := coincide t hp hw
+      obtain ⟨e1, e2⟩ := (checkOne_spec w hc).2 lh lm rfl
+      subst e1; subst e2
+      refine ⟨?_, ?_⟩
+      · simp only [xhlslSB, xref, hw, if_true, (hs .hlsl).1, (hs .hlsl).2]
+      · simp only [xmetal, xref, hw, if_true, (hs .metal).1, (hs .metal).2]
+
+/-- **What `get_type_layout` cannot handle is never silently accepted**: a type that mentions a `bool` or a
+    matrix anywhere is neither accepted nor reported with sizes (the verdict is "unknown size", or a panic of an
+    earlier member). -/
+theorem no_layout_no_verdict (t : XTy) (hp : plain t = false) :
+    checkAll [erase t] ≠ .ok ∧ ∀ i lh lm, checkAll [erase t] ≠ .mismatch i lh lm := by
+  have hn := checkOne_opaque t hp
+  constructor
+  · intro h
+    exact hn _ (checkFrom_ok [erase t] 0 h (erase t) (List.mem_singleton.2 rfl))
+  · intro i lh lm h
+    obtain ⟨u, hu, _, hc⟩ := checkFrom_mismatch [erase t] 0 i lh lm h
+    have : u = erase t := by
+      cases i with
+      | zero => simpa using hu.symm
+      | succ k => simp at hu
+    subst this
+    exact hn _ hc
+
+/-- **Completeness, partial.**  Agreeing types without `bool` and matrices (sizes ≤ u32::MAX) are all accepted.
+    *Missing for the full statement:* a type that mentions a `bool` or a matrix is rejected ("unknown size") even
+    when its two layouts agree — `complete_fails_beyond_plain` gives `{float4x4}` and `{bool; int}`. -/
+theorem check_complete_partial (ts : List XTy)
+    (h : ∀ t ∈ ts, xwf t = true ∧ plain t = true ∧ xsize .hlsl t ≤ u32Max ∧ xsize .metal t ≤ u32Max ∧ XAgree t) :
+    checkAll (ts.map erase) = .ok := by
+  apply check_complete
+  intro u hu
+  obtain ⟨t, ht, rfl⟩ := List.mem_map.1 hu
+  obtain ⟨hw, hp, hh, hm, ha⟩ := h t ht
+  obtain ⟨w, hs, _, hag⟩ := coincide t hp hw
+  refine ⟨w, by rw [← (hs .hlsl).1]; exact hh, by rw [← (hs .metal).1]; exact hm, ?_, ?_⟩
+  · rw [← (hs .hlsl).1, ← (hs .metal).1]; exact ha.1
+  · rw [← hag]; exact ha.2
+
+private def xf : XTy := .scalar .Float32
+private def XS (l : List XTy) : XTy := .struct (XTys.ofList l)
+
+/-- the full completeness statement is false: these two have identical layouts under both rule sets and are
+    rejected with "unknown size" -/
+theorem complete_fails_beyond_plain :
+    (xwf (XS [.mat .Float32 4 4 .none]) = true ∧ XAgree (XS [.mat .Float32 4 4 .none]) ∧
+      checkAll [erase (XS [.mat .Float32 4 4 .none])] = .unknown 0) ∧
+    (xwf (XS [.scalar .Bool, .scalar .Int32]) = true ∧ XAgree (XS [.scalar .Bool, .scalar .Int32]) ∧
+      checkAll [erase (XS [.scalar .Bool, .scalar .Int32])] = .unknown 0) := by
+  decide
+
+/-- **Empty structs (negation witness).**  `struct E {}; struct S { E e; float a; }` is accepted, but the
+    member `a` is at offset 0 (size 4) under HLSL packing and at offset 4 (size 8) in Metal, where an empty struct
+    occupies one byte.  (Replayed on the real compiler by `C19.prog vk:np:0 {{} f} sb@0`; known finding
+    `accepted/empty-struct`.)  This is why `xwf` excludes empty structs. -/
+theorem empty_struct_unsound :
+    checkAll [erase (XS [XS [], xf])] = .ok ∧
+    xsize .hlsl (XS [XS [], xf]) = 4 ∧ xsize .metal (XS [XS [], xf]) = 8 ∧
+    xfieldsAt .hlsl (XS [XS [], xf]) 0 = [0, 0] ∧ xfieldsAt .metal (XS [XS [], xf]) 0 = [0, 4] := by
+  decide
+
+/-- non-vacuity: types of the widened universe that satisfy `xwf`; a `bool`/matrix-free one among them is
+    accepted, the others get "unknown size"; a depth-5 nest is handled -/
+example :
+    xwf (XS [.vec .Bool 3, .mat .Float16 3 2 .row, .arr (.arr (.arr xf 2) 3) 4, .enum .UInt32]) = true ∧
+    checkAll [erase (XS [.vec .Bool 3, xf])] = .unknown 0 ∧
+    checkAll [erase (XS [xf, .mat .Float64 2 2 .column])] = .unknown 0 ∧
+    checkAll [erase (XS [.arr (.arr (.arr xf 2) 3) 4, .vec .Float32 2])] = .ok ∧
+    checkAll [erase (XS [XS [XS [XS [XS [.vec .Float32 2, xf]], xf]], xf])] = .mismatch 0 ⟨20, 4⟩ ⟨32, 8⟩ := by
+  decide
+
+end full
 
 /-! ### non-vacuity and regression examples -/
 private def f : Ty := .scalar .Float32
